@@ -406,7 +406,7 @@ func (w *world) features(j job) string {
 		}
 	}
 	if len(f) == 0 {
-		return "plain base=" + j.base.name
+		return "ordinary-hierarchy"
 	}
 	return strings.Join(f, ",")
 }
